@@ -24,8 +24,13 @@ def theorem_names(path):
 
 
 def parse_assumption_blocks(out):
-    """Split coqc output into the blocks printed by `Print Assumptions`."""
+    """Split coqc output into the blocks printed by `Print Assumptions`: one list of
+    axiom names per block (empty for "Closed under the global context").  Inside an
+    `Axioms:` block an axiom starts at column 0 (`Qualified.name : type`, or the name
+    alone when the type is printed on the following, indented lines); indented lines
+    continue the type."""
     blocks, cur = [], None
+    name_re = re.compile(r"^([A-Za-z_][A-Za-z0-9_.']*)\s*(:.*)?$")
     for line in out.split('\n'):
         if line.startswith('Closed under the global context'):
             if cur is not None:
@@ -38,8 +43,10 @@ def parse_assumption_blocks(out):
             cur = []
         elif cur is not None:
             if line.startswith(' ') or line.strip() == '':
-                if line.strip():
-                    cur.append(line.rstrip())
+                continue
+            m = name_re.match(line)
+            if m and not line.startswith(('File ', 'Warning', 'Error')):
+                cur.append(m.group(1) + ' :')
             else:
                 blocks.append(cur)
                 cur = None
@@ -96,11 +103,14 @@ def check_proofs(prop, tier, extra_targets=()):
     if info['hygiene']:
         info['failed'].append('hygiene scan: ' + '; '.join(info['hygiene'][:5]))
     if tier == 'thorough' and not info['failed'] and os.environ.get('VERIF_NO_COQCHK') != '1':
-        rc, out, _ = C.sh(['coqchk', '-silent', '-Q', '.', 'Spowtd', '-o',
-                           'Spowtd.Properties.%s' % prop], cwd=C.COQ, timeout=1800)
+        # Interval.Tactic (the library module shipped compiled by Debian) is admitted: coqchk has no VM and does
+        # not get through that module's own reflexive proofs (exp_fast_correct) in hours; every file of this
+        # development and every other library it loads is re-checked.
+        rc, out, _ = C.sh(['coqchk', '-silent', '-Q', '.', 'Spowtd', '-o', '-admit', 'Interval.Tactic',
+                           'Spowtd.Properties.%s' % prop], cwd=C.COQ, timeout=2400)
         info['coqchk_rc'] = rc
         info['coqchk_tail'] = out[-1500:]
-        info['checker_cmd'] += ' ; coqchk -silent -Q coq Spowtd -o Spowtd.Properties.%s' % prop
+        info['checker_cmd'] += ' ; coqchk -silent -Q coq Spowtd -o -admit Interval.Tactic Spowtd.Properties.%s' % prop
         if rc != 0:
             info['failed'].append('coqchk failed')
     info['wall_s'] = time.time() - t0
